@@ -91,7 +91,7 @@ Ltac t3v := intros; repeat split; close2.
 TIERS = {"quick": dict(n=75, depth=3), "thorough": dict(n=600, depth=4)}
 MAIN_THEOREMS = ["C10_thm.den_ext_on", "C10_thm.C10_irep_den", "C10_thm.C10_remove_partial",
                  "C10_thm.C10_renumber", "C10_inj.C10_renumber_injective", "C10_expand.C10_expand_partial",
-                 "C10_refuted.C10_remove_refuted", "C10_refuted.C10_remove_zero_refuted",
+                 "C10_refuted.C10_remove_refuted", "C10_refuted.C10_remove_zero_fixed",
                  "C10_refuted.C10_expand_refuted"]
 
 
@@ -124,7 +124,6 @@ def witness_zero():
 KNOWN = {
     "indexreplacer-capture": (witness_capture, remove_component_tensors),
     "expand-variable-cache": (witness_variable, expand_indices),
-    "indexreplacer-zero-fixed": (witness_zero, remove_component_tensors),
 }
 
 
@@ -139,13 +138,10 @@ def replay_known(run, known):
         e = mk()
         try:
             o = fn(e)
-        except Exception as ex:   # noqa: BLE001
-            if kid == "indexreplacer-zero-fixed" and isinstance(ex, ValueError):
-                live.add(kid)
-                run.known(f"id={kid} {fn.__name__}({e}) raises {type(ex).__name__}: {ex}")
+        except Exception:   # noqa: BLE001
             continue
         w = C10_lib.mismatch(o, e, trials=4, seed=1)
-        if w and kid != "indexreplacer-zero-fixed":
+        if w:
             live.add(kid)
             run.known(f"id={kid} {fn.__name__}({e}) = {o}: {w['kind']} differs "
                       f"(implementation {w.get('implementation_value', w.get('implementation'))}, "
@@ -224,10 +220,6 @@ def extra_rct(known_instance, crash):
         txt, names = [], []
         txt.append(f"Example {nm}_rk : rk {nm}_in {rank} = true. Proof. vm_compute. reflexivity. Qed.\n")
         names.append(f"{nm}_rk")
-        if crash == "zero":
-            txt.append(f"Example {nm}_crash : rct {nm}_in = None. Proof. vm_compute. reflexivity. Qed.\n")
-            names.append(f"{nm}_crash")
-            return "".join(txt), names
         if crash == "capture":
             txt.append(f"Example {nm}_class : rct_safe {nm}_in = false. Proof. vm_compute. reflexivity. Qed.\n")
             names.append(f"{nm}_class")
@@ -242,8 +234,7 @@ def extra_rct(known_instance, crash):
         add_wf(case, txt, names)
         if "indexreplacer-capture" in FIXED and not case.note.get("hygienic"):
             return "".join(txt), names       # the model reproduces the (fixed) capture: no T3 on this class
-        txt.append(t3_lemma(case, f"rct {nm}_in", C10_lib.free_of(case.inp),
-                            allow_none="indexreplacer-zero-fixed" in FIXED))
+        txt.append(t3_lemma(case, f"rct {nm}_in", C10_lib.free_of(case.inp)))
         names.append(f"{nm}_t3")
         return "".join(txt), names
     return f
@@ -336,6 +327,13 @@ def enumerated_cases():
     out.append(("sh_ct1", X(ComponentTensor(br, MultiIndex((i,))), 1), True))
     out.append(("sh_ctj", S(Product(X(ComponentTensor(br, MultiIndex((i,))), j), X(B2, j)), j), True))
     out.append(("sh_prod", X(ComponentTensor(Product(n2, X(C2, i)), MultiIndex((i,))), 1), True))
+    # a Zero all of whose free indices are replaced by fixed indices (regression of the repaired
+    # IndexReplacer.zero), and one of whose indices only some are
+    out.append(("zf_allfixed", witness_zero(), True))
+    zi, zj = Index(), Index()
+    z2 = Zero((), tuple(sorted((zi.count(), zj.count()))), (2, 2))
+    ctz = ComponentTensor(X(ListTensor(z2, Product(X(B2, zi), X(C2, zj))), 0), MultiIndex((zi,)))
+    out.append(("zf_partfixed", ComponentTensor(X(ctz, 1), MultiIndex((zj,))), False))
     return out
 
 
@@ -402,11 +400,7 @@ def build_cases(run, live):
             o, err = None, ex
         note = dict(base, **{"pass": "remove_component_tensors"})
         if err is not None:
-            if isinstance(err, ValueError) and "not enough values to unpack" in str(err) \
-                    and "indexreplacer-zero-fixed" in live:
-                cases.append(C10_lib.PassCase(nm, None, e, extra=extra_rct(False, "zero"), note=note))
-                known_hits.setdefault("indexreplacer-zero-fixed", []).append(nm)
-            elif not is_h and "indexreplacer-capture" in live:
+            if not is_h and "indexreplacer-capture" in live:
                 cases.append(C10_lib.PassCase(nm, None, e, extra=extra_rct(False, "capture"), note=note))
                 known_hits.setdefault("indexreplacer-capture", []).append(nm)
             else:
@@ -500,7 +494,7 @@ def main(run):
     known = vlib.load_known_findings("C10")
     live = replay_known(run, known)
     FIXED.clear()
-    FIXED.update(k.get("id") for k in known if k.get("id") in KNOWN and k.get("id") not in live)
+    FIXED.update(k for k in KNOWN if k not in live)     # listed as fixed, or no longer reproducing
     if FIXED:
         run.extra["known_findings_fixed_in_tree"] = sorted(FIXED)
     cases, stats = build_cases(run, live)
